@@ -17,7 +17,8 @@ structure ChanInv (ch : Chan) : Prop where
   laggedIff : ch.lagged = true ↔ 0 < ch.fullSeen
   subEnd : ∀ s, ch.owner = .sub s → ch.senderAlive = false → ch.closedByServer = true ∨ ch.unsubscribed = true
 
-theorem chanInv_fresh (cap : Nat) (o : Owner) (op : Nat) (uid : Id := .null) : ChanInv { cap := cap, owner := o, op := op, uid := uid } where
+theorem chanInv_fresh (cap : Nat) (o : Owner) (op : Nat) (uid : Id := .null) (rid : Id := .null) :
+    ChanInv { cap := cap, owner := o, op := op, uid := uid, rid := rid } where
   fifo := by intro _; rfl
   yieldedPrefix := by simp
   noLoss := by intro _ _; rfl
@@ -163,21 +164,14 @@ theorem chanInv_pop (ch : Chan) (p : Text) (rest : List Text) (hb : ch.buf = p :
   laggedIff := h.laggedIff
   subEnd := h.subEnd
 
-theorem chanInv_ack (id : Id) (ch : Chan) (h : ChanInv ch) : ChanInv (ackChan id ch) := by
-  unfold ackChan
-  split
-  · exact {
-      fifo := h.fifo
-      yieldedPrefix := h.yieldedPrefix
-      noLoss := h.noLoss
-      prefixSent := h.prefixSent
-      noGap := h.noGap
-      laggedIff := h.laggedIff
-      subEnd := h.subEnd }
-  · exact h
-
-theorem ackChan_owner (id : Id) (ch : Chan) : (ackChan id ch).owner = ch.owner := by
-  unfold ackChan; split <;> rfl
+theorem chanInv_acked (ch : Chan) (b : Bool) (h : ChanInv ch) : ChanInv { ch with acked := b } where
+  fifo := h.fifo
+  yieldedPrefix := h.yieldedPrefix
+  noLoss := h.noLoss
+  prefixSent := h.prefixSent
+  noGap := h.noGap
+  laggedIff := h.laggedIff
+  subEnd := h.subEnd
 
 /-! ### lists of channels -/
 
@@ -227,8 +221,8 @@ theorem allChans_modChan (P : Chan → Prop) (st : Core) (c : ChanId) (f : Chan 
   · exact h a h1
   · subst e; exact hf b hb (h b (List.mem_of_getElem? hb))
 
-theorem allChans_newChan (P : Chan → Prop) (st : Core) (o : Owner) (op : Nat) (uid : Id := .null)
-    (h : AllChans P st) (hn : P { cap := st.cap, owner := o, op := op, uid := uid }) : AllChans P (st.newChan o op uid).1 := by
+theorem allChans_newChan (P : Chan → Prop) (st : Core) (o : Owner) (op : Nat) (uid : Id := .null) (rid : Id := .null)
+    (h : AllChans P st) (hn : P { cap := st.cap, owner := o, op := op, uid := uid, rid := rid }) : AllChans P (st.newChan o op uid rid).1 := by
   intro a ha
   simp only [Core.newChan, List.mem_append, List.mem_singleton] at ha
   rcases ha with ha | ha
@@ -281,7 +275,7 @@ theorem getElem?_append_of_some {α} (l : List α) (x : α) (i : Nat) (a : α) (
     · rw [List.getElem?_eq_none h1] at h; simp at h
   rw [List.getElem?_append_left this]; exact h
 
-theorem routes_newChan (st : Core) (o : Owner) (op : Nat) (h : Routes st) (uid : Id := .null) : Routes (st.newChan o op uid).1 where
+theorem routes_newChan (st : Core) (o : Owner) (op : Nat) (h : Routes st) (uid : Id := .null) (rid : Id := .null) : Routes (st.newChan o op uid rid).1 where
   subs := by
     intro s rid hs
     obtain ⟨uid, ch, um, h1, h2⟩ := h.subs s rid hs
@@ -363,30 +357,6 @@ theorem routes_remove_sub (st : Core) (rid : Id) (s : SubId) (m' : Mgr) (h : Rou
       rw [g2] at g4; simp at g4
       exact hne g4.symm
     exact hr rid' u c um this h1
-
-theorem routes_ackChans (st : Core) (id : Id) (h : Routes st) : Routes (st.ackChans id) where
-  subs := by
-    intro s rid hs
-    obtain ⟨uid, ch, um, h1, h2⟩ := h.subs s rid hs
-    refine ⟨uid, ch, um, h1, ?_⟩
-    simp only [Core.ackChans, List.getElem?_map]
-    cases hg : st.chans[ch]? with
-    | none => simp [hg] at h2
-    | some x => simp [hg] at h2 ⊢; rw [ackChan_owner]; exact h2
-  handlers := by
-    intro m ch hm
-    have h2 := h.handlers m ch hm
-    simp only [Core.ackChans, List.getElem?_map]
-    cases hg : st.chans[ch]? with
-    | none => simp [hg] at h2
-    | some x => simp [hg] at h2 ⊢; rw [ackChan_owner]; exact h2
-
-theorem allChans_ackChans (st : Core) (id : Id) (h : AllChans ChanInv st) : AllChans ChanInv (st.ackChans id) := by
-  intro ch hc
-  simp only [Core.ackChans, List.mem_map] at hc
-  obtain ⟨x, hx, e⟩ := hc
-  subst e
-  exact chanInv_ack id x (h x hx)
 
 /-! ### the combined channel invariant and its preservation by the handlers -/
 
@@ -482,11 +452,11 @@ theorem cinv_buildUnsub (st : Core) (rid : Id) (s : SubId) (st' : Core) (msg : F
     obtain ⟨e1, _⟩ := hb
     subst e1
     obtain ⟨_, _, e⟩ := unsubscribe_spec _ _ _ _ _ _ _ hu
-    have e' : m' = unsubMgr st.mgr rid uid s := e
+    have e' : m' = unsubMgr st.mgr rid uid s c := e
     subst e'
-    obtain ⟨o1, _, o3⟩ := unsubMgr_others st.mgr rid uid s
-    have hr := routes_remove_sub st rid s (unsubMgr st.mgr rid uid s) h.routes hs o1 o3
-      (fun k u c' um' hk hl => (unsubMgr_alookup st.mgr rid uid s k _ (by simp) (by simp) hk).2 hl)
+    obtain ⟨o1, _, o3⟩ := unsubMgr_others st.mgr rid uid s c
+    have hr := routes_remove_sub st rid s (unsubMgr st.mgr rid uid s c) h.routes hs o1 o3
+      (fun k u c' um' hk hl => (unsubMgr_alookup st.mgr rid uid s c k _ (by simp) (by simp) hk).2 hl)
     exact ⟨allChans_modChan ChanInv _ _ _ (fun ch hc => h.chans ch hc) (fun ch _ hc => chanInv_dropSender_unsub ch hc),
            routes_modChan _ c _ (fun ch => rfl) hr⟩
 
@@ -497,7 +467,7 @@ def withSub (st : Core) (sid uid : Id) (s : SubId) (um : Text) : Core :=
 
 theorem routes_insert_sub (st : Core) (sid uid : Id) (s : SubId) (um : Text) (op : Nat) (h : Routes st)
     (hv : alookup sid st.mgr.requests = none) (hsv : alookup s st.mgr.subs = none) :
-    Routes ((withSub st sid uid s um).newChan (.sub s) op uid).1 where
+    Routes ((withSub st sid uid s um).newChan (.sub s) op uid sid).1 where
   subs := by
     intro s' rid hs'
     simp only [Core.newChan, withSub] at hs' ⊢
@@ -540,8 +510,8 @@ theorem cinv_completeSubscribe (st : Core) (r : Response) (uid : Id) (t : Ticket
       | some m' =>
         obtain ⟨hv, hsv, e⟩ := insertSubscription_spec _ _ _ _ _ _ _ hins
         have hm : ({ st with mgr := m' } : Core) = withSub st r.id uid s um := by rw [e]; rfl
-        have h0 : CInv ((withSub st r.id uid s um).newChan (.sub s) t.op uid).1 :=
-          ⟨allChans_newChan ChanInv _ _ _ uid (fun ch hc => h.chans ch hc) (chanInv_fresh _ _ _ uid),
+        have h0 : CInv ((withSub st r.id uid s um).newChan (.sub s) t.op uid r.id).1 :=
+          ⟨allChans_newChan ChanInv _ _ _ uid r.id (fun ch hc => h.chans ch hc) (chanInv_fresh _ _ _ uid r.id),
            routes_insert_sub st r.id uid s um t.op h.routes hv hsv⟩
         simp only [hm]
         cases hal : st.alive t with
@@ -565,7 +535,7 @@ theorem cinv_processSingleResponse (st st' : Core) (r : Response) (effs : List E
       obtain ⟨f1, _, f3, _, _, f6, _⟩ := completePendingCall_frame _ _ _ _ hcp
       have hnsub : ∀ u c um, alookup r.id st.mgr.requests ≠ some (.sub u c um) := by
         intro u c um hc
-        rcases completePendingCall_spec _ _ _ _ hcp with ⟨hl, _⟩ | ⟨_, hl, _, _⟩ <;> rw [hl] at hc <;> simp at hc
+        rcases completePendingCall_spec _ _ _ _ hcp with ⟨hl, _⟩ | ⟨_, _, hl, _, _⟩ <;> rw [hl] at hc <;> simp at hc
       have h1 : CInv { st with mgr := m' } := by
         refine ⟨fun ch hc => h.chans ch hc, routes_mgr_frame st m' h.routes (fun _ _ hh => by rw [f1] at hh; exact hh)
           (fun _ _ hh => by rw [f3] at hh; exact hh) ?_⟩
@@ -576,7 +546,11 @@ theorem cinv_processSingleResponse (st st' : Core) (r : Response) (effs : List E
       | none =>
         simp [hcp] at hp
         rw [← hp.1]
-        exact ⟨allChans_ackChans _ _ h1.chans, routes_ackChans _ _ h1.routes⟩
+        cases hat : st.mgr.ackTarget r.id with
+        | none => exact h1
+        | some c =>
+          exact ⟨allChans_modChan ChanInv _ _ _ h1.chans (fun ch _ hc => chanInv_acked ch true hc),
+                 routes_modChan _ _ _ (fun ch => rfl) h1.routes⟩
       | some t1 =>
         simp [hcp] at hp
         rw [← hp.1]
@@ -684,7 +658,7 @@ theorem cinv_handleFront (st : Core) (msg : FrontMsg) (h : CInv st) : CInv (hand
       · rename_i hv
         simp at h1; subst h1
         have h0 : CInv ({ st with mgr := { st.mgr with handlers := (meth, st.chans.length) :: st.mgr.handlers } }.newChan (.method meth) t0.op).1 := by
-          refine ⟨allChans_newChan ChanInv _ _ _ .null (fun ch hc => h.chans ch hc) (chanInv_fresh _ _ _), ?_⟩
+          refine ⟨allChans_newChan ChanInv _ _ _ .null .null (fun ch hc => h.chans ch hc) (chanInv_fresh _ _ _), ?_⟩
           have hr := routes_newChan { st with mgr := { st.mgr with handlers := (meth, st.chans.length) :: st.mgr.handlers } } (.method meth) t0.op
           refine ⟨?_, ?_⟩
           · intro s rid hs
